@@ -64,6 +64,22 @@ CLAIMED = {
              "the --overwrite flag reaches Config unmodified, models/ and api/ are removed on every path before being rebuilt, "
              "document-dependent file names occur only under them. Not decided: file-system races, cross-flavour histories.",
         ref="DESIGN.md §4 C19"),
+    "C10": dict(
+        technique="sibling / guard rules: path enumeration of the type-string builders over their boolean atoms, truth tables over Jinja guard atoms of every Unset-handling macro, sibling parity of the enum builders",
+        text="Structural clauses, each a necessary condition: all 5 get_type_string implementations mention Unset exactly when "
+             "`not no_optional and not required` (all paths, 4 combinations each); to_string's default matrix; every transform/"
+             "construct macro (27) handles Unset only on the optional arm and only by isinstance; a guard is skipped only under "
+             "property.required; unconditional key writes imply required; optional pops carry UNSET; union None short-circuit; "
+             "handle_nullable exhaustive; query filter by identity with UNSET/None; null extraction by identity in both enum "
+             "builders. Not decided: run-time attribute values.",
+        ref="DESIGN.md §4 C10"),
+    "C14": dict(
+        technique="sibling cross-check of the two enum builders / merge functions (alpha-normalised statements), CFG dominance of member-name stores by the duplicate test, template-structure rules for closed decode, label analysis of value emission",
+        text="Structural clauses: EnumProperty.build == LiteralEnumProperty.build modulo class name and values representation; "
+             "null extraction by identity; every member-name store dominated by a duplicate test on the stored key that leads to "
+             "a diagnostic; decode closed (Enum(value), check function with raising fall-through, const comparison), encode "
+             ".value/identity; member values reach the class with a single escaping. Not decided: Enum(value) itself.",
+        ref="DESIGN.md §4 C14"),
 }
 
 NOT_APPLICABLE = {
